@@ -139,8 +139,15 @@ def run(ctx):
     mo, _, _ = common.run_lines_sharded(common.MODEL_EXE, lines)
     io_, _, _ = common.run_lines_sharded(common.LIBCASE, lines, env=ENV)
     for l, m, o, e in zip(lines, mo, io_, expect):
-        if m != o:
+        oc = "panic" if o.startswith("panic:") else o        # the model carries no panic site
+        if m != oc:
             ctx.disagree("file.parse", l[:3000], m[:300], o[:300])
+        if o.startswith("panic:") and "bitstream_io_reader.rs" in o and e == "err":
+            # a damaged entry that happens to contain an exp-Golomb code with 64 leading zeros: the third-party
+            # reader's panic (C08's known finding KF-C08-ue64) seen through the file reader; the model says the same
+            # (`panic`, compared above). Not a statement about the file reader: counted, not judged here.
+            ctx.count("damaged entry hits the third-party exp-Golomb panic (C08 known finding; model agrees)")
+            continue
         if o != e:
             ctx.oracle_fail({"op": "file.parse", "chunk": int(l.split(" ")[1]), "input": l.split(" ")[2],
                              "observed": o[:300], "expected": e[:300]})
